@@ -135,7 +135,7 @@ func (f *frame) call(t *ssa.Call) {
 		f.callByContract(t, callee, fc, args)
 		return
 	}
-	inModule := callee.Pkg != nil && strings.HasPrefix(callee.Pkg.Pkg.Path(), modulePath)
+	inModule := fnPkg(callee) != nil && strings.HasPrefix(fnPkg(callee).Pkg.Path(), modulePath)
 	if inModule && callee.Blocks != nil && f.depth < x.inlineMax && !f.onStack(callee) && (fc != nil || instrCount(callee) <= 220) && inlinable(callee) {
 		f.inlineCall(t, callee, fc, args)
 		return
@@ -341,7 +341,7 @@ func (f *frame) inlineCall(t *ssa.Call, callee *ssa.Function, fc *FuncContract, 
 
 // calleeCtx builds the evaluation context of a callee's contract at a call site.
 func (x *Exec) calleeCtx(callee *ssa.Function, fc *FuncContract, args []Val, heap, old *HeapState) *EvalCtx {
-	ctx := &EvalCtx{X: x, PkgPath: callee.Pkg.Pkg.Path(), Scope: callee.Pkg.Pkg.Scope(), Vars: map[string]Val{}, Heap: heap, Old: old}
+	ctx := &EvalCtx{X: x, PkgPath: fnPkg(callee).Pkg.Path(), Scope: fnPkg(callee).Pkg.Scope(), Vars: map[string]Val{}, Heap: heap, Old: old}
 	names := fc.ParamNames
 	if len(names) != len(callee.Params) {
 		names = nil
